@@ -605,7 +605,7 @@ def c02(tier, seed):
     ex = mt_cases(prop, "exit", tier, seed, n_baton=tier_n(tier, 400, 10000), n_par=tier_n(tier, 4, 40), n_tsan=tier_n(tier, 2, 20), start=700000)
     for c in core.run_cases(ex): v.add(c)
     cases += ex
-    tx = tiny_cases(prop, tier, seed + 5, n_progs=tier_n(tier, 6, 20), scenario="tinyx", envs=TINYX_ENVS, max_scripts=tier_n(tier, 3000, 6000))      # see C09
+    tx = tiny_cases(prop, tier, seed + 5, n_progs=tier_n(tier, 10, 20), scenario="tinyx", envs=TINYX_ENVS, max_scripts=tier_n(tier, 3000, 6000))      # see C09
     for c in core.run_cases([c for c in tx if c.exit is None]): pass
     for c in tx: v.add(c)
     cases += tx; tiny = tiny + tx
